@@ -62,7 +62,7 @@ fn main() {
     }
     let ctx = Ctx::new(&args, level, "E3");
     let samples = Samples::new(4);
-    let par = 8;
+    let par = if c17 { 12 } else { 8 };
     let budget = ctx.tier.pick(50.0, 2400.0);
     let mut worlds: Vec<Value> = vec![];
     let mut caps: Vec<String> = vec![];
